@@ -65,7 +65,7 @@ CHECKS["C10"] = dict(
     design="4 C10")
 
 CHECKS["C11"] = dict(
-    technique="TLA+ spec MarkupWriter.tla: TLC checks the writers' span-reconstruction design models (single open_span flag) against the span requirement on every balanced flat node stream (MC_Markup), checks the DFXP style-table write order against "every reference to a defined style survives" on all acyclic reference graphs over three styles, emitting each for replay (MC_Styles, the as-found id order refuted), and judges the token streams that independent parsers extract from real DFXP / SAMI / WebVTT output and the node lists pycaption's readers return (Trace_Markup)",
+    technique="TLA+ spec MarkupWriter.tla: TLC checks the writers' span-reconstruction design models (single open_span flag) against the span requirement on every balanced flat node stream (MC_Markup), checks the DFXP style-table write order against 'every reference to a defined style survives' on all acyclic reference graphs over three styles, emitting each for replay (MC_Styles, the as-found id order refuted), and judges the token streams that independent parsers extract from real DFXP / SAMI / WebVTT output and the node lists pycaption's readers return (Trace_Markup)",
     text="Exhaustive over all balanced flat node streams of length <= 5 (quick) / 7 (thorough) through seven routes (DFXP, SAMI, WebVTT, legacy and single-position DFXP, DFXP->SAMI, SAMI->DFXP); random streams of 5-30 nodes beyond; plus balance of every caption the six readers return on the corpus. Per visible character the (italic, bold, underline) flags and the nesting of the emitted tags are computed and compared by TLC.",
     design="4 C11")
 
@@ -75,7 +75,7 @@ CHECKS["C07"] = dict(
     design="4 C07")
 
 CHECKS["C12"] = dict(
-    technique="TLA+ spec Positioning.tla (on Geometry.tla): TLC checks the composition of the writer's region lookup and the reader's region resolution on all layout-name assignments (MC_Positioning, on DfxpDoc.tla), steps the WebVTT writer's grouping loop as a state machine against "one cue per run of equal layouts" on every list of <= 4 node layouts, each emitted for replay (MC_Groups, the as-found loop refuted), and judges the effective layout per visible character after a real DFXPWriter -> DFXPReader round trip and the cue settings tokenised from WebVTTWriter output (Trace_Positioning, exact rationals)",
+    technique="TLA+ spec Positioning.tla (on Geometry.tla): TLC checks the composition of the writer's region lookup and the reader's region resolution on all layout-name assignments (MC_Positioning, on DfxpDoc.tla), steps the WebVTT writer's grouping loop as a state machine against 'one cue per run of equal layouts' on every list of <= 4 node layouts, each emitted for replay (MC_Groups, the as-found loop refuted), and judges the effective layout per visible character after a real DFXPWriter -> DFXPReader round trip and the cue settings tokenised from WebVTTWriter output (Trace_Positioning, exact rationals)",
     text="Exhaustive over 1250 layout-name assignments (set / language / caption / node, plain or styled) and over a grid exhaustive in None-ness of the four layout parts, the 23 alignment pairs and padding values at four attachment levels; WebVTT align / position / line / size arithmetic on the same grid, multi-layout captions (1-3 cues) and verbatim raw cue settings; random two-decimal values beyond. One open known finding (plain TEXT node layouts) is re-validated with exactly that deviation enabled.",
     design="4 C12")
 
